@@ -119,10 +119,10 @@ func compileLeaf(pattern string) (*leafRegex, error) {
 }
 
 type Alphabet struct {
-	reps    []rune       // representative of each class
-	bounds  []rune       // sorted interval starts
-	classAt []int        // class of the interval starting at bounds[i]
-	lower   []int        // class of ToLower(rep)
+	reps    []rune // representative of each class
+	bounds  []rune // sorted interval starts
+	classAt []int  // class of the interval starting at bounds[i]
+	lower   []int  // class of ToLower(rep)
 	nlClass int
 	surr    int // class of the surrogate code points, which never occur in decoded text
 }
